@@ -1582,8 +1582,11 @@ impl Gen<'_> {
 		}
 	}
 	fn raw_content(&mut self) -> Content {
-		let choices: [&[u8]; 6] = [
+		let choices: [&[u8]; 9] = [
 			b"plain text\n",
+			b"\xef\xbb\xbfwith a byte order mark\r\nand CRLF line ends\r\n",
+			b"trailing spaces   \n\n\n",
+			b"\ttabs\tand 'single' quotes ${x} %(y)s |||\n",
 			"h\u{e9}llo \u{4e16}\u{754c} \u{1f600}".as_bytes(),
 			b"",
 			b"line1\nline2 \"quoted\" \\ back\n",
